@@ -23,6 +23,7 @@ from ..astutil import (
 )
 from ..cfg import CFG
 from ..core import AnalysisError, Mutant
+from ..exprnorm import contains_expr, summarize
 
 EXPLANATION = (
     "Dominance/post-dominance of index updates over line-list mutations in the four TextFile "
@@ -50,6 +51,12 @@ COUPLED = {
 }
 LIST_MUTATORS = {"append", "insert", "extend", "pop", "remove", "clear", "sort", "reverse"}
 SANGER_TABLE = {"Sanger": 33, "Solexa": 64, "Illumina-1.3": 64, "Illumina-1.5": 64, "Illumina-1.8": 33}
+
+
+def _str_of(e, attr):
+    """does the expression contain str(<something>.attr)"""
+    return any(isinstance(c, ast.Call) and call_name(c) == "str" and len(c.args) == 1 and isinstance(c.args[0], ast.Attribute)
+               and c.args[0].attr == attr for c in ast.walk(e))
 
 
 def lines_writes(node, base_names):
@@ -186,6 +193,9 @@ def run(ctx):
         uses = [n for n in walk_local(f) if isinstance(n, ast.Compare) and isinstance(n.ops[0], ast.In)
                 and isinstance(n.left, ast.Name) and n.left.id == key_param]
         uses += [n for n in walk_local(f) if isinstance(n, ast.Delete)]
+        # ... and so does the line that is written
+        uses += [n for n in walk_local(f) if isinstance(n, ast.BinOp) and isinstance(n.op, ast.Add) and isinstance(n.left, ast.Constant)
+                 and n.left.value == marker]
         if isinstance(written, ast.Name) and written.id == key_param:
             ctx.need(norm, f"{cls}.__setitem__ normalises the key")
             for u in uses:
@@ -197,7 +207,8 @@ def run(ctx):
         derive = [n for n in walk_local(fe) if isinstance(n, ast.Subscript) and isinstance(n.slice, ast.Slice)
                   and isinstance(n.slice.lower, ast.Constant) and n.slice.lower.value == 1
                   and n.slice.upper is None]
-        ctx.ob("R2.reindexer-strips-marker", rel, f"{cls}._find_entries", "line[1:]", len(derive) >= 1,
+        double = [n for n in derive if any(x is not n and x in derive for x in ast.walk(n))]
+        ctx.ob("R2.reindexer-strips-marker", rel, f"{cls}._find_entries", "line[1:]", len(derive) >= 1 and not double,
                "the re-indexer must derive the key by removing the one marker character", fe.lineno)
         # iterator variants write the same header normalisation
         wi = src.methods(cls).get("write_iter")
@@ -313,6 +324,21 @@ def run(ctx):
            f"reader {sorted(r_range)} writer {sorted(w_range)}", r_range <= w_range,
            f"range locations: {sorted(r_range - w_range)} understood by the reader is never written",
            wr.lineno)
+    # per shape: every two-position form (a.b, a^b, a..b) is built from the first position with its BEYOND_LEFT mark and the
+    # last position with its BEYOND_RIGHT mark (read off the composed result expression)
+    wsum = summarize(wr)
+    ctx.need(wsum.result is not None, "_convert_to_loc_string: summarisable result")
+    n_forms = 0
+    for n in ast.walk(wsum.result):
+        if isinstance(n, ast.BinOp) and isinstance(n.op, ast.Add) and isinstance(n.left, ast.BinOp) and isinstance(n.left.op, ast.Add) \
+                and isinstance(n.left.right, ast.Constant) and n.left.right.value in (".", "^", ".."):
+            n_forms += 1
+            lpart, sep_, rpart = n.left.left, n.left.right.value, n.right
+            lf, rf = defect_names(lpart), defect_names(rpart)
+            ctx.ob("R3.range-flags", GBA, "_convert_to_loc_string", f"form a{sep_}b: first with {sorted(lf)}, last with {sorted(rf)}",
+                   "BEYOND_LEFT" in lf and "BEYOND_RIGHT" in rf and _str_of(lpart, "first") and _str_of(rpart, "last"),
+                   f"in the form a{sep_}b the first position must carry the '<' of BEYOND_LEFT and the last the '>' of BEYOND_RIGHT", wr.lineno)
+    ctx.floor("R3.two-position-forms", n_forms, 3)
     # symbols: '<' with BEYOND_LEFT on the first, '>' with BEYOND_RIGHT on the last position
     for fn, q in ((rd, "_parse_single_loc"), (wr, "_convert_to_loc_string")):
         pairs = set()
@@ -344,9 +370,19 @@ def run(ctx):
                 consts[st.targets[0].id] = const_eval(st.value)
             except Exception:
                 pass
-    ctx.ob("R3.feature-columns", GBA, "set_annotation", "_KEY_START/_QUAL_START used by reader and writer",
-           all(k in ast.unparse(ga) and k in ast.unparse(sa_) for k in ("_KEY_START", "_QUAL_START"))
-           and consts.get("_KEY_START") == 5 and consts.get("_QUAL_START") == 21,
+    indents, key_widths = set(), set()
+    for n in ast.walk(sa_):
+        try:
+            if isinstance(n, ast.BinOp) and isinstance(n.op, ast.Mult) and isinstance(n.left, ast.Constant) and n.left.value == " ":
+                indents.add(const_eval(n.right, consts))
+            if isinstance(n, ast.Call) and isinstance(n.func, ast.Attribute) and n.func.attr == "ljust" and "key" in ast.unparse(n.func.value) and n.args:
+                key_widths.add(const_eval(n.args[0], consts))
+        except Exception:
+            indents.add("?")
+    ctx.ob("R3.feature-columns", GBA, "set_annotation", f"indents {sorted(map(str, indents))}, key field {sorted(map(str, key_widths))}",
+           all(k in ast.unparse(ga) for k in ("_KEY_START", "_QUAL_START"))
+           and consts.get("_KEY_START") == 5 and consts.get("_QUAL_START") == 21
+           and indents == {5, 21} and key_widths == {16},
            "feature key / qualifier columns differ between reader and writer", sa_.lineno, nontrivial=False)
 
     # ---------------- R4 GFF ------------------------------------------------
@@ -640,6 +676,10 @@ def run(ctx):
            "inserting a field: the fields from index on must move down by len(new lines)", f.lineno)
 
 MUTANTS = [
+    Mutant("range-loses-beyond-right", GBA, '            loc_string = loc_first_str + ".." + loc_last_str', '            loc_string = loc_first_str + ".." + str(loc.last)', "R3.range-flags"),
+    Mutant("fasta-header-written-raw", FASTA, '        header = header.replace("\\n", "").strip()\n        # Create lines for new header and sequence (with line breaks)\n        new_lines = [">" + header] + wrap_string(seq_str, width=self._chars_per_line)', '        # Create lines for new header and sequence (with line breaks)\n        new_lines = [">" + header] + wrap_string(seq_str, width=self._chars_per_line)\n        header = header.replace("\\n", "").strip()', "R2.key-normalised-before-use"),
+    Mutant("feature-key-field-15", GBA, "line += feature.key.ljust(_QUAL_START - _KEY_START)", "line += feature.key.ljust(15)", "R3.feature-columns"),
+    Mutant("reindexer-strips-two", FASTA, "header = self.lines[header_i[j]].strip()[1:]", "header = self.lines[header_i[j]][1:].strip()[1:]", "R2.reindexer-strips-marker"),
     Mutant("fasta-del-no-reindex", FASTA, "        del self._entries[header]\n        self._find_entries()\n",
            "", "R1.lines-index-coupled", "FastaFile.__delitem__"),
     Mutant("fastq-del-no-reindex", FASTQ, "        del self._entries[identifier]\n        self._find_entries()\n",
